@@ -267,6 +267,7 @@ def parse_caching_function(fn, cache_table, compute, hc_params, hc_kw, key_expr)
         bad(ret, "%s: does not end in `return <name>`" % fn.name)
     res = ret.value.id
     computes = []
+    tbl = [cache_table]          # None: discovered from the lookup statement
 
     def is_compute_assign(st, also_store=None):
         if not isinstance(st, ast.Assign):
@@ -276,7 +277,7 @@ def parse_caching_function(fn, cache_table, compute, hc_params, hc_kw, key_expr)
             good = len(tg) == 1 and is_name(tg[0], res)
         else:
             good = (len(tg) == 2 and is_name(tg[0], res) and isinstance(tg[1], ast.Subscript)
-                    and is_name(tg[1].value, cache_table) and is_name(tg[1].slice, also_store))
+                    and is_name(tg[1].value, tbl[0]) and is_name(tg[1].slice, also_store))
         if good and simple_call(st.value, compute):
             computes.append(st.value)
             return True
@@ -295,13 +296,16 @@ def parse_caching_function(fn, cache_table, compute, hc_params, hc_kw, key_expr)
                 and not tr.finalbody and is_name(tr.handlers[0].type, "KeyError")):
             bad(tr, "%s: expected try/except KeyError around the lookup" % fn.name)
         lk = tr.body[0]
+        if tbl[0] is None and isinstance(lk, ast.Assign) and isinstance(lk.value, ast.Subscript) \
+                and is_name(lk.value.value):
+            tbl[0] = lk.value.value.id
         if not (isinstance(lk, ast.Assign) and len(lk.targets) == 1 and is_name(lk.targets[0], res)
-                and isinstance(lk.value, ast.Subscript) and is_name(lk.value.value, cache_table)
+                and isinstance(lk.value, ast.Subscript) and is_name(lk.value.value, tbl[0])
                 and is_name(lk.value.slice, keyvar)):
-            bad(lk, "%s: expected `%s = %s[%s]`" % (fn.name, res, cache_table, keyvar))
+            bad(lk, "%s: expected `%s = <module-level dict>[%s]`" % (fn.name, res, keyvar))
         hb = tr.handlers[0].body
         if len(hb) != 1 or not is_compute_assign(hb[0], also_store=keyvar):
-            bad(tr, "%s: miss branch is not `%s = %s[%s] = %s(...)`" % (fn.name, res, cache_table, keyvar, compute))
+            bad(tr, "%s: miss branch is not `%s = %s[%s] = %s(...)`" % (fn.name, res, tbl[0], keyvar, compute))
         return k.value
 
     fallback = False
@@ -385,7 +389,7 @@ def parse_caching_function(fn, cache_table, compute, hc_params, hc_kw, key_expr)
     info["compute_kw"] = ukws
     info["fallback"] = fallback
     info["compute"] = compute
-    info["table"] = cache_table
+    info["table"] = tbl[0]
     # every name handed to the key or the computation must be a normalised local or a parameter
     # that is not re-bound in between (the statement shapes above leave no room for a re-binding)
     for nme in used + info["key_fields"]:
@@ -451,35 +455,28 @@ def translate(src):
             if st.name in fns:
                 raise Untranslatable("untranslatable: %s defined twice" % st.name)
             fns[st.name] = st
-    # module-level tables must be created empty, exactly once, and not be re-bound
+    # module-level dicts: NAME = {} ; a name bound twice (or to anything else) is not a table
     tables = {}
+    rebound = set()
     for st in mod.body:
-        if isinstance(st, ast.Assign) and len(st.targets) == 1 and is_name(st.targets[0]):
-            nm = st.targets[0].id
-            if nm in ("_PATH_CACHE", "_CONTRACT_EXPR_CACHE", "_find_path_handlers", "_find_tree_handlers",
-                      "_HASH_OPTIMIZE_PREPARERS"):
-                if nm in tables or not (isinstance(st.value, ast.Dict) and not st.value.keys):
-                    bad(st, "%s is not created once as an empty dict" % nm)
-                tables[nm] = True
-    for nm in ("_PATH_CACHE", "_CONTRACT_EXPR_CACHE", "_find_path_handlers", "_find_tree_handlers",
-               "_HASH_OPTIMIZE_PREPARERS"):
+        if isinstance(st, ast.Assign):
+            for tg in st.targets:
+                if is_name(tg):
+                    if tg.id in tables or tg.id in rebound:
+                        rebound.add(tg.id)
+                        tables.pop(tg.id, None)
+                    elif len(st.targets) == 1 and isinstance(st.value, ast.Dict) and not st.value.keys:
+                        tables[tg.id] = True
+                    else:
+                        rebound.add(tg.id)
+    for nm in ("_find_path_handlers", "_find_tree_handlers", "_HASH_OPTIMIZE_PREPARERS"):
         if nm not in tables:
-            raise Untranslatable("untranslatable: module-level dict %s not found" % nm)
+            raise Untranslatable("untranslatable: module-level dict %s is not created once as an empty dict" % nm)
     need = ["hash_contraction", "hash_prepare_optimize", "can_hash_optimize", "identity", "find_path", "find_tree",
             "array_contract_path", "array_contract_expression", "_build_expression"]
     for n in need:
         if n not in fns:
             raise Untranslatable("untranslatable: function %s not found" % n)
-    # nobody else may write to the caches
-    for node in ast.walk(mod):
-        if isinstance(node, (ast.Subscript,)) and isinstance(node.ctx, (ast.Store, ast.Del)) and is_name(node.value):
-            owner = {"_PATH_CACHE": "array_contract_path", "_CONTRACT_EXPR_CACHE": "array_contract_expression",
-                     "_find_path_handlers": "find_path", "_find_tree_handlers": "find_tree",
-                     "_HASH_OPTIMIZE_PREPARERS": "hash_prepare_optimize"}.get(node.value.id)
-            if owner is not None:
-                f = fns[owner]
-                if not (f.lineno <= node.lineno <= f.end_lineno):
-                    bad(node, "%s is written outside %s" % (node.value.id, owner))
     # identity
     ib = body_wo_doc(fns["identity"])
     if not (len(ib) == 1 and isinstance(ib[0], ast.Return) and is_name(ib[0].value, fns["identity"].args.args[0].arg)):
@@ -492,9 +489,26 @@ def translate(src):
     can_hash = parse_can_hash(fns["can_hash_optimize"])
     fp_chain, fp_default = parse_dispatch(fns["find_path"], "_find_path_handlers")
     ft_chain, ft_default = parse_dispatch(fns["find_tree"], "_find_tree_handlers")
-    pinfo = parse_caching_function(fns["array_contract_path"], "_PATH_CACHE", "find_path", hc_params, hc_kw, key_expr)
-    einfo = parse_caching_function(fns["array_contract_expression"], "_CONTRACT_EXPR_CACHE", "_build_expression",
+    # which dict each caching function reads and writes is DISCOVERED, not assumed; that the two are
+    # different objects is then decided inside Coq (C13_caches_are_separate) on the emitted names
+    pinfo = parse_caching_function(fns["array_contract_path"], None, "find_path", hc_params, hc_kw, key_expr)
+    einfo = parse_caching_function(fns["array_contract_expression"], None, "_build_expression",
                                    hc_params, hc_kw, key_expr)
+    for inf in (pinfo, einfo):
+        if inf["table"] not in tables:
+            bad(fns[inf["name"]], "%s: cache %r is not a module-level name bound exactly once to an empty dict "
+                "(an alias of another dict?)" % (inf["name"], inf["table"]))
+    users = {}
+    for tname, owner in ((pinfo["table"], "array_contract_path"), (einfo["table"], "array_contract_expression"),
+                         ("_find_path_handlers", "find_path"), ("_find_tree_handlers", "find_tree"),
+                         ("_HASH_OPTIMIZE_PREPARERS", "hash_prepare_optimize")):
+        users.setdefault(tname, []).append(owner)
+    # nobody else may touch the tables: any mention outside the using functions (an alias, a write, a
+    # clear) is refused, except the creating assignment itself
+    for node in ast.walk(mod):
+        if is_name(node) and node.id in users and not isinstance(node.ctx, ast.Store):
+            if not any(fns[o].lineno <= node.lineno <= fns[o].end_lineno for o in users[node.id]):
+                bad(node, "%s is used outside %s" % (node.id, " / ".join(users[node.id])))
     bnames, bva, bkw = params_of(fns["_build_expression"])
     if bva or bkw:
         bad(fns["_build_expression"], "_build_expression takes * or ** arguments")
@@ -518,6 +532,7 @@ def translate(src):
         w("(* %s: `%s[key]` with key = hash_contraction(...) at the call site; the cached computation is %s(...) *)" % (
             inf["name"], inf["table"], inf["compute"]))
         w("Definition %s_key_expr : kexpr :=\n  %s." % (tag, coq_kexpr(inf["key_expr"])))
+        w("Definition %s_cache_table : string := %s." % (tag, coq_str(inf["table"])))
         w("Definition %s_key_fields : list string := %s." % (tag, coq_strlist(inf["key_fields"])))
         w("Definition %s_used_fields : list string := %s." % (tag, coq_strlist(inf["used_fields"])))
         w("Definition %s_typeerror_fallback : bool := %s." % (tag, "true" if inf["fallback"] else "false"))
